@@ -12,11 +12,26 @@
  *   rc <rc> T <k:h:p | . ...> F <keys by next from min> B <keys by prev from max>
  * joined by " | ".  T is the pre-order dump with '.' for NULL (key:stored height:parent key,
  * -1 for the root).
+ *
+ * avl_drv ptr: pointer-level output (compared with the extracted AvlPtrModel).  Every node object gets a
+ * serial number when it is malloc'ed: 1, 2, ... per case; the start tree in allocation (= pre-order) order,
+ * then one serial per i<key> op (consumed even when the insert is rejected).  Live node objects are kept in
+ * a registry (rejected / deleted nodes leave it when they are freed).  Per op
+ *   rc <rc> R <root> N <serial>:<key>:<height>:<left>:<right>:<parent> ... F <serials by next from min> B <serials by prev from max>
+ * N lists ALL live objects of the registry by increasing serial (not by walking the tree); pointers are
+ * printed as the serial of the object they point to, 0 for NULL, '?' for anything that is not a live
+ * registered object (never dereferenced by the harness).  When the root or a field of a live object is such
+ * a pointer the traversals are not run (F ? B ?); then, or when a traversal does not terminate (LOOP), the
+ * structure is broken and the case ends there with " | STOP" (further operations on it could spin or write
+ * anywhere).  ptr mode also arms a CPU-time watchdog of 5 s per case (SIGPROF kills the
+ * driver, the runner records the unanswered case as crashed) next to the 30 s wall-clock alarm.
  */
 #include <stdio.h>
 #include <unistd.h>
 #include <stdlib.h>
 #include <string.h>
+#include <stddef.h>
+#include <sys/time.h>
 #include <iv_avl.h>
 #include <iv_list.h>
 
@@ -39,6 +54,99 @@ static int cmp(const struct iv_avl_node *_a, const struct iv_avl_node *_b)
 
 static struct iv_avl_tree tree;
 
+/* ---- ptr mode: registry of live node objects ---- */
+static int ptr_mode;
+static struct node **by_serial;		/* by_serial[s] = live object with serial s, or NULL */
+static long by_serial_cap;
+static long next_serial = 1;
+static struct reg_ent {
+	const struct node	*p;
+	long			serial;
+} *reg;					/* live objects sorted by address */
+static long reg_n;
+static long reg_cap;
+
+static long reg_pos(const struct node *p)
+{
+	long lo = 0;
+	long hi = reg_n;
+
+	while (lo < hi) {
+		long mid = lo + (hi - lo) / 2;
+		if ((unsigned long)reg[mid].p < (unsigned long)p)
+			lo = mid + 1;
+		else
+			hi = mid;
+	}
+	return lo;
+}
+
+/* serial of the live object an points to; 0 when it is not (the start of) a live registered object */
+static long serial_of(const struct iv_avl_node *an)
+{
+	const struct node *p = (const struct node *)((const char *)an - offsetof(struct node, an));
+	long i = reg_pos(p);
+
+	return (i < reg_n && reg[i].p == p) ? reg[i].serial : 0;
+}
+
+static void reg_add(struct node *n)
+{
+	long s;
+	long i;
+
+	if (!ptr_mode)
+		return;
+	s = next_serial++;
+	if (s >= by_serial_cap) {
+		long ncap = by_serial_cap ? 2 * by_serial_cap : 64;
+		by_serial = realloc(by_serial, ncap * sizeof(*by_serial));
+		memset(by_serial + by_serial_cap, 0, (ncap - by_serial_cap) * sizeof(*by_serial));
+		by_serial_cap = ncap;
+	}
+	if (reg_n == reg_cap) {
+		reg_cap = reg_cap ? 2 * reg_cap : 64;
+		reg = realloc(reg, reg_cap * sizeof(*reg));
+	}
+	by_serial[s] = n;
+	i = reg_pos(n);
+	memmove(reg + i + 1, reg + i, (reg_n - i) * sizeof(*reg));
+	reg[i].p = n;
+	reg[i].serial = s;
+	reg_n++;
+}
+
+static void reg_del(struct node *n)
+{
+	long i;
+
+	if (!ptr_mode)
+		return;
+	i = reg_pos(n);
+	if (i < reg_n && reg[i].p == n) {
+		by_serial[reg[i].serial] = NULL;
+		memmove(reg + i, reg + i + 1, (reg_n - i - 1) * sizeof(*reg));
+		reg_n--;
+	}
+}
+
+/* returns 0 when an points to something that is not a live registered object */
+static int print_ptr(const char *sep, const struct iv_avl_node *an)
+{
+	long s;
+
+	if (an == NULL) {
+		printf("%s0", sep);
+		return 1;
+	}
+	s = serial_of(an);
+	if (s)
+		printf("%s%ld", sep, s);
+	else
+		printf("%s?", sep);
+	return s != 0;
+}
+
 static char *tok;
 static char *save;
 
@@ -53,6 +161,7 @@ static struct iv_avl_node *build(struct iv_avl_node *parent)
 		return NULL;
 	}
 	n = malloc(sizeof(*n));
+	reg_add(n);
 	n->key = atol(tok);
 	n->an.parent = parent;
 	tok = strtok_r(NULL, " ", &save);
@@ -139,10 +248,79 @@ static void report(int rc)
 	}
 }
 
-int main(void)
+/* returns 0 when the root or a field of a live object points to a non-live object (the traversals are then
+ * not run: F ? B ?) or when a traversal did not terminate */
+static int report_ptr(int rc)
+{
+	struct iv_avl_node *an;
+	long limit = reg_n + 2;
+	int fields_ok;
+	long s;
+	long i;
+	int sane = 1;
+
+	printf("rc %d R", rc);
+	fields_ok = print_ptr(" ", tree.root);
+	printf(" N");
+	for (s = 1; s < next_serial; s++) {
+		struct node *n = by_serial[s];
+
+		if (n == NULL)
+			continue;
+		printf(" %ld:%ld:%d", s, n->key, (int)n->an.height);
+		fields_ok &= print_ptr(":", n->an.left);
+		fields_ok &= print_ptr(":", n->an.right);
+		fields_ok &= print_ptr(":", n->an.parent);
+	}
+	printf(" F");
+	i = 0;
+	if (!fields_ok) {
+		printf(" ?");
+		sane = 0;
+	} else {
+		iv_avl_tree_for_each (an, &tree) {
+			if (serial_of(an) == 0) {
+				printf(" ?");
+				sane = 0;
+				break;
+			}
+			printf(" %ld", serial_of(an));
+			if (++i > limit) {
+				printf(" LOOP");
+				sane = 0;
+				break;
+			}
+		}
+	}
+	printf(" B");
+	i = 0;
+	if (!fields_ok) {
+		printf(" ?");
+		sane = 0;
+	} else {
+		for (an = iv_avl_tree_max(&tree); an != NULL; an = iv_avl_tree_prev(an)) {
+			if (serial_of(an) == 0) {
+				printf(" ?");
+				sane = 0;
+				break;
+			}
+			printf(" %ld", serial_of(an));
+			if (++i > limit) {
+				printf(" LOOP");
+				sane = 0;
+				break;
+			}
+		}
+	}
+	return sane;
+}
+
+int main(int argc, char **argv)
 {
 	char *line = NULL;
 	size_t cap = 0;
+
+	ptr_mode = argc > 1 && strcmp(argv[1], "ptr") == 0;
 
 	while (getline(&line, &cap, stdin) > 0) {
 		char *bar;
@@ -154,6 +332,10 @@ int main(void)
 		/* watchdog per case: a run-away loop in the library must not stall the whole check (the runner
 		   records the unanswered case as crashed and resumes after it) */
 		alarm(30);
+		if (ptr_mode) {
+			struct itimerval it = { { 0, 0 }, { 5, 0 } };
+			setitimer(ITIMER_PROF, &it, NULL);
+		}
 
 		line[strcspn(line, "\n")] = 0;
 		bar = strchr(line, '|');
@@ -163,6 +345,7 @@ int main(void)
 		ops = bar + 1;
 
 		INIT_IV_AVL_TREE(&tree, cmp);
+		next_serial = 1;
 		tok = strtok_r(line, " ", &save);
 		tree.root = build(NULL);
 
@@ -175,17 +358,21 @@ int main(void)
 				 * (0x01 looks like a stale height-1 leaf, as after delete + re-insert of the same object) */
 				static const unsigned char garbage[4] = { 0xaa, 0x01, 0x00, 0x02 };
 				struct node *n = malloc(sizeof(*n));
+				reg_add(n);
 				memset(n, garbage[(unsigned long)key % 4], sizeof(*n));
 				n->key = key;
 				rc = iv_avl_tree_insert(&tree, &n->an);
-				if (rc < 0)
+				if (rc < 0) {
+					reg_del(n);
 					free(n);
+				}
 			} else {
 				struct node *n = lookup(key);
 				if (n == NULL) {
 					rc = 1;
 				} else {
 					iv_avl_tree_delete(&tree, &n->an);
+					reg_del(n);
 					memset(n, 0xaa, sizeof(*n));
 					free(n);
 					rc = 0;
@@ -194,12 +381,31 @@ int main(void)
 			if (!first)
 				printf(" | ");
 			first = 0;
-			report(rc);
+			if (ptr_mode) {
+				if (!report_ptr(rc)) {
+					printf(" | STOP");
+					break;
+				}
+			} else {
+				report(rc);
+			}
 		}
 		printf("\n");
 		fflush(stdout);
-		free_all(tree.root);
+		if (ptr_mode) {
+			/* free every live object of the registry (also the ones a broken tree no longer reaches) */
+			while (reg_n > 0) {
+				struct node *n = by_serial[reg[reg_n - 1].serial];
+
+				reg_del(n);
+				free(n);
+			}
+		} else {
+			free_all(tree.root);
+		}
 	}
 	free(line);
+	free(by_serial);
+	free(reg);
 	return 0;
 }
